@@ -11,11 +11,12 @@ if args[0] == '--inplace':
     inplace = True; args = args[1:]
 wt, k, name = args[0], args[1], args[2]
 checks = args[3:]
-ROOT = '/verif'
+ROOT = os.path.dirname(os.path.dirname(os.path.abspath(__file__)))
+OUT = '/verif'   # results are always collected in the live tree
 diff = os.path.join(wt, 'seed%s.diff' % k)
 demo = os.path.join(wt, 'seed%s_demo.rs' % k)
 note = os.path.join(wt, 'seed%s.md' % k)
-d = os.path.join(ROOT, 'seeded', name)
+d = os.path.join(OUT, 'seeded', name)
 if not os.path.exists(diff) and os.path.exists(os.path.join(d, 'patch.diff')):
     diff, demo, note = os.path.join(d, 'patch.diff'), os.path.join(d, 'demo.rs'), os.path.join(d, 'description.md')
 scr = '/tmp/seedval_%d' % os.getpid()
